@@ -353,9 +353,14 @@ func (vfs *MemFS) Link(oldname, newname string) (err error) {
 		return &os.LinkError{Op: op, Old: oldname, New: newname, Err: vfs.err.PermDenied}
 	}
 
+	if nParent.removed {
+		// The directory was removed since the path was resolved (it may be the root of a view : no second walk).
+		return &os.LinkError{Op: op, Old: oldname, New: newname, Err: vfs.err.NoSuchDir}
+	}
+
 	// The new name may have been created since the directory was walked without a lock held,
-	// possibly by moving the old one, or the directory removed : both paths are resolved again.
-	if nParent.removed || nParent.children[pi.Part()] != nil {
+	// possibly by moving the old one : both paths are resolved again.
+	if nParent.children[pi.Part()] != nil {
 		again = true
 
 		return nil
@@ -508,8 +513,15 @@ func (vfs *MemFS) MkdirAll(path string, perm fs.FileMode) error {
 		return &fs.PathError{Op: op, Path: path, Err: vfs.err.PermDenied}
 	}
 
-	if parent.removed || (vfs.isNotExist(err) && parent.children[pi.Part()] != nil) {
-		// The directory was removed, or the missing entry created, since the path was resolved : resolve it again.
+	if parent.removed {
+		// The directory was removed since the path was resolved (it may be the root of a view : no second walk).
+		parent.mu.Unlock()
+
+		return &fs.PathError{Op: op, Path: path, Err: vfs.err.NoSuchDir}
+	}
+
+	if vfs.isNotExist(err) && parent.children[pi.Part()] != nil {
+		// The missing entry was created since the path was resolved : resolve it again.
 		parent.mu.Unlock()
 
 		return vfs.MkdirAll(path, perm)
@@ -947,8 +959,13 @@ func (vfs *MemFS) Rename(oldpath, newpath string) (err error) {
 
 	// The directories may have changed since they were walked without a lock held: both names are looked up again.
 	// (A root directory is its own parent and has no name to look up.)
-	if nParent.removed || (oChild != node(oParent) && oParent.children[oPI.Part()] != oChild) {
-		// The old name was removed or replaced, or the new directory removed, in the meantime : both paths are resolved again.
+	if nParent.removed {
+		// The new directory was removed since the path was resolved (it may be the root of a view : no second walk).
+		return &os.LinkError{Op: op, Old: oldpath, New: newpath, Err: vfs.err.NoSuchDir}
+	}
+
+	if oChild != node(oParent) && oParent.children[oPI.Part()] != oChild {
+		// The old name was removed or replaced in the meantime : both paths are resolved again.
 		again = true
 
 		return nil
